@@ -77,6 +77,38 @@ class DefaultEvaluatorStep(PlanStep):
         """
         config = EnOptConfig.model_validate(config, context=transforms)
 
+        # A user abort may be raised by the evaluator, or by the observers of
+        # any event, including those signalling the start and end of the step:
+        try:
+            exit_code = self._run_evaluator(config, transforms, variables, metadata)
+        except OptimizationAborted as exc:
+            exit_code = exc.exit_code
+
+        if exit_code == OptimizerExitCode.USER_ABORT:
+            self.plan.abort()
+
+        try:
+            self.emit_event(
+                Event(
+                    event_type=EventType.FINISHED_EVALUATOR_STEP,
+                    config=config,
+                    source=self.id,
+                )
+            )
+        except OptimizationAborted as exc:
+            exit_code = exc.exit_code
+            if exit_code == OptimizerExitCode.USER_ABORT:
+                self.plan.abort()
+
+        return exit_code
+
+    def _run_evaluator(
+        self,
+        config: EnOptConfig,
+        transforms: OptModelTransforms | None,
+        variables: ArrayLike | None,
+        metadata: dict[str, Any] | None,
+    ) -> OptimizerExitCode:
         self.emit_event(
             Event(
                 event_type=EventType.START_EVALUATOR_STEP,
@@ -105,12 +137,10 @@ class DefaultEvaluatorStep(PlanStep):
                 source=self.id,
             )
         )
-        try:
-            results = ensemble_evaluator.calculate(
-                variables, compute_functions=True, compute_gradients=False
-            )
-        except OptimizationAborted as exc:
-            exit_code = exc.exit_code
+        # If the evaluation is aborted there are no results to report:
+        results = ensemble_evaluator.calculate(
+            variables, compute_functions=True, compute_gradients=False
+        )
 
         assert results
         assert isinstance(results[0], FunctionResults)
@@ -136,17 +166,6 @@ class DefaultEvaluatorStep(PlanStep):
                 config=config,
                 source=self.id,
                 data=data,
-            )
-        )
-
-        if exit_code == OptimizerExitCode.USER_ABORT:
-            self.plan.abort()
-
-        self.emit_event(
-            Event(
-                event_type=EventType.FINISHED_EVALUATOR_STEP,
-                config=config,
-                source=self.id,
             )
         )
 
